@@ -41,6 +41,28 @@ func checkImage(img *vstore.Store, cfg Cfg, cands []*Model, names []string, prob
 					return vv
 				}
 			}
+			// every version the reopened instance reports available is completely readable (a half-deleted or
+			// half-written version must not be listed)
+			rawImg := scanRaw(img.Dump())
+			for _, av := range fw.Tree.AvailableVersions() {
+				if _, hasRoot := rawImg.Roots[int64(av)]; !hasRoot && !m.Has(int64(av)) {
+					// listed only because the available range is assumed contiguous above a surviving root key
+					// (KF-phantom-version); there is no record of this version at all
+					continue
+				}
+				it, err := fw.Tree.GetImmutable(int64(av))
+				if err != nil {
+					return viol("listed-unreadable", "version %d is reported available but GetImmutable fails: %v", av, err)
+				}
+				if _, err := it.Iterate(func(k, v []byte) bool { return false }); err != nil {
+					return viol("listed-unreadable", "version %d is reported available but cannot be iterated: %v", av, err)
+				}
+				if it.Size() > 0 {
+					if _, _, err := it.GetByIndex(it.Size() - 1); err != nil {
+						return viol("listed-unreadable", "version %d is reported available but its last key cannot be read: %v", av, err)
+					}
+				}
+			}
 			return nil
 		})
 		if fw.Tree != nil {
@@ -48,6 +70,9 @@ func checkImage(img *vstore.Store, cfg Cfg, cands []*Model, names []string, prob
 		}
 		if v == nil {
 			return names[i], nil
+		}
+		if v.Oracle == "listed-unreadable" {
+			return "", v
 		}
 		if v.Oracle == "load" || v.Oracle == "panic" {
 			// a failing / panicking Load is no state at all: no candidate can match
@@ -304,7 +329,12 @@ func retryOp(img *vstore.Store, cfg Cfg, cfg0 Cfg, op Op, hist []Op, match strin
 		seq = append(seq, op)
 		for _, o := range seq {
 			if o.Kind == OpDelTo && o.Ver < m.First {
-				continue // already completely deleted
+				// the image already equals the state after the deletion: repeating the call must be accepted
+				// and change nothing
+				if err := fw.Tree.DeleteVersionsTo(o.Ver); err != nil {
+					return viol("retry", "repeating %s on the completed state failed: %v", o, err)
+				}
+				continue
 			}
 			if vv := fw.Apply(o); vv != nil {
 				return viol("retry", "repeating %s after the crash: %s", o, vv.Error())
@@ -379,7 +409,7 @@ func c05Specs(tier string, stats *crashStats) []*Spec {
 		s.OnState = crashOracle(s, probes, stats, c05CrashOps)
 		specs = append(specs, s)
 	}
-	flushes := []int{150, 250, 400, 1000, 0}
+	flushes := []int{110, 150, 250, 400, 1000, 0}
 	d := 5
 	if tier == "thorough" {
 		d = 7
@@ -387,7 +417,7 @@ func c05Specs(tier string, stats *crashStats) []*Spec {
 	for _, fl := range flushes {
 		for _, fast := range []bool{true, false} {
 			depth := d
-			if fl != 150 && fl != 0 {
+			if fl != 150 && fl != 0 && fl != 110 {
 				depth = d - 1
 			}
 			add(fmt.Sprintf("flush%d/fast=%v/d%d", fl, fast, depth), Cfg{Fast: fast, Flush: fl}, depth, 2, 1<<uint(depth-3))
@@ -425,7 +455,7 @@ func init() {
 		if faultReportedSuccess(c) {
 			return false
 		}
-		return f["op"] == "SaveVersion" && f["class"] == "nodes_of_new_version_without_root" && (f["symptom"] == "load" || f["symptom"] == "state")
+		return f["op"] == "SaveVersion" && f["class"] == "nodes_of_new_version_without_root" && f["symptom"] != "retry"
 	}
 }
 
@@ -465,7 +495,7 @@ func init() {
 		if faultReportedSuccess(c) {
 			return false
 		}
-		return f["op"] == "LoadVersionForOverwriting" && f["class"] == "partially_deleted_versions_above_target" && (f["symptom"] == "load" || f["symptom"] == "state")
+		return f["op"] == "LoadVersionForOverwriting" && f["class"] == "partially_deleted_versions_above_target" && f["symptom"] != "retry"
 	}
 }
 
@@ -480,6 +510,6 @@ func init() {
 		if faultReportedSuccess(c) {
 			return false
 		}
-		return f["op"] == "DeleteVersionsTo" && f["class"] == "dangling_reference_root" && (f["symptom"] == "load" || f["symptom"] == "state" || f["symptom"] == "reads" || f["symptom"] == "panic")
+		return f["op"] == "DeleteVersionsTo" && f["class"] == "dangling_reference_root" && (f["symptom"] == "load" || f["symptom"] == "state" || f["symptom"] == "reads" || f["symptom"] == "panic" || f["symptom"] == "listed-unreadable")
 	}
 }
